@@ -92,6 +92,8 @@ pub const CODE_SYSTEM_ERROR: &str = "system-error";
 pub const CODE_CORRUPTION: &str = "corruption";
 /// A manifest string contains a disallowed newline.
 pub const CODE_NEWLINE_DISALLOWED: &str = "newline-disallowed";
+/// A manifest string or info key cannot be represented in the manifest's line format.
+pub const CODE_STRING_DISALLOWED: &str = "string-disallowed";
 /// The manifest exists and `fail_if_exists` was specified.
 pub const CODE_MANIFEST_EXISTS: &str = "manifest-exists";
 /// The manifest does not exist and `fail_if_not_exist` was specified.
@@ -118,6 +120,12 @@ fn corruption(what: impl AsRef<str>) -> SError {
 fn newline_disallowed(what: impl AsRef<str>) -> SError {
     error(CODE_NEWLINE_DISALLOWED)
         .with_message("manifest string contains newline")
+        .with_string_field("what", what.as_ref())
+}
+
+fn string_disallowed(what: impl AsRef<str>) -> SError {
+    error(CODE_STRING_DISALLOWED)
+        .with_message("manifest string cannot be read back")
         .with_string_field("what", what.as_ref())
 }
 
@@ -536,7 +544,7 @@ impl Edit {
 
     /// Set the info field `c` to `s`.
     pub fn info(&mut self, c: char, s: &str) -> Result<(), SError> {
-        Self::check_str(&c.to_string())?;
+        Self::check_key(c)?;
         let s = Self::check_str(s)?;
         self.info.insert(c, s);
         Ok(())
@@ -547,13 +555,38 @@ impl Edit {
         self.info.get(&c)
     }
 
+    // NOTE:  Everything accepted here must come back unchanged from ManifestIterator, which reads
+    // lines of ASCII (one trailing '\r' is dropped by BufRead::lines) and requires at least one
+    // byte after the action character.
     fn check_str(s: &str) -> Result<String, SError> {
         if s.chars().any(|c| c == '\n') {
             Err(newline_disallowed(
                 "added strings must not contain newlines",
             ))
+        } else if s.is_empty() {
+            Err(string_disallowed("added strings must not be empty"))
+        } else if !s.is_ascii() {
+            Err(string_disallowed("added strings must be ascii"))
+        } else if s.ends_with('\r') {
+            Err(string_disallowed(
+                "added strings must not end in a carriage return",
+            ))
         } else {
             Ok(s.to_owned())
+        }
+    }
+
+    // NOTE:  '+' and '-' are the add/remove actions; an info line keyed by either would be read
+    // back as an addition or removal.
+    fn check_key(c: char) -> Result<(), SError> {
+        if c == '\n' {
+            Err(newline_disallowed("info keys must not be newlines"))
+        } else if !c.is_ascii() {
+            Err(string_disallowed("info keys must be ascii"))
+        } else if c == '+' || c == '-' {
+            Err(string_disallowed("info keys must not be '+' or '-'"))
+        } else {
+            Ok(())
         }
     }
 }
